@@ -461,6 +461,12 @@ class Folder:
                     from .absint import Raised
 
                     raise Raised(type(ex).__name__, e)  # what the operation raises in the evaluated program
+            if isinstance(recv, Abstract) and e.func.attr in getattr(recv, "__dict__", {}):
+                fv0 = recv.__dict__[e.func.attr]
+                if isinstance(fv0, (_Lambda, _LocalFn)):
+                    return fv0.call(self, [self.fold(a) for a in args])
+                if type(fv0).__name__ == "_BoundMethod":
+                    return fv0.call(self, [self.fold(a) for a in args], {k.arg: self.fold(k.value) for k in e.keywords if k.arg})
             if type(recv).__name__ == "AObj":
                 from .absint import aobj_member
 
@@ -677,6 +683,23 @@ class Folder:
             pyk = {"bytes": bytes, "bytearray": bytearray, "int": int, "bool": bool, "str": str, "float": float, "fractions.Fraction": Fraction, "Fraction": Fraction, "set": (set, frozenset), "frozenset": frozenset, "list": list, "tuple": tuple, "dict": dict}
             if all(k in pyk for k in kn) and not isinstance(v, Sym):
                 return any(isinstance(v, pyk[k]) for k in kn)  # type: ignore
+            if not isinstance(v, Abstract) and (v is None or isinstance(v, (int, str, float, bool, Fraction, list, tuple, dict, set, frozenset, bytes))):
+                # a plain value is an instance of the builtin classes listed, never of a class of the repository
+                res_ = False
+                known = True
+                for k_, node_ in zip(kn, (args[1].elts if isinstance(args[1], ast.Tuple) else [args[1]])):
+                    if k_ in pyk:
+                        res_ = res_ or isinstance(v, pyk[k_])  # type: ignore
+                    else:
+                        r_ = None
+                        try:
+                            r_ = self.repo.resolve_expr(self.mod, node_, self.cls) if self.repo is not None and self.mod is not None else None
+                        except Exception:
+                            r_ = None
+                        if not isinstance(r_, ClassInfo):
+                            known = False
+                if known:
+                    return res_
             if isinstance(v, Abstract) and isinstance(getattr(v, "_isa_", None), (set, frozenset)):
                 return any((k or "?").split(".")[-1] in v._isa_ for k in kn)
             if type(v).__name__ == "AObj" and self.repo is not None:
